@@ -31,7 +31,15 @@
 (*        SetDelta) stood at noon of day `day`: judged to the day only.    *)
 (*        They are called between explicit instants because they share     *)
 (*        the helpers (and whatever those remember) with them.             *)
-(* Every Obs / RT / Fmt / Prs / Now event carries n = its position in the history; the trace *)
+(*   ZRT  p zone xday xms xoff text err rday rms roff text2                *)
+(*        the round trip in a process whose local zone is `zone` (child    *)
+(*        process started with TZ=zone): x = (xday, xms) the UTC instant,  *)
+(*        xoff = the zone's offset there in ms (standard library), text =  *)
+(*        FormatTime(x as local time), r = (rday, rms) = Parse(text) as    *)
+(*        UTC instant, roff = the zone's offset at r, text2 =              *)
+(*        FormatTime(r as local time).  Judged by the zone-free law on the *)
+(*        wall-clock readings and, for full patterns, r = x.               *)
+(* Every Obs / RT / ZRT / Fmt / Prs / Now event carries n = its position in the history; the trace *)
 (* spec counts (variable k), so a lost event is a rejected trace.          *)
 (* A panic is logged as event "Panic", for which there is no action.       *)
 (***************************************************************************)
@@ -80,6 +88,25 @@ TraceRT ==
              /\ (AllRequired(e.p, t) => e.text2 = e.text)     \* Format(p, Parse(p, Format(p, t))) = Format(p, t)
   /\ UNCHANGED vars
 
+\* the round trip under a local zone with offset xoff at x and roff at r (gen zone)
+ZRTFields == {"p", "xday", "xms", "xoff", "text", "err", "rday", "rms", "roff", "text2"}
+OffOK(o) == o > -MsPerDay /\ o < MsPerDay
+TraceZRT ==
+  /\ Step("ZRT") /\ Numbered
+  /\ LET e == Trace[l] IN
+       /\ \A f \in ZRTFields : Has(e, f)
+       /\ LET x == [day |-> e.xday, ms |-> e.xms]
+              r == [day |-> e.rday, ms |-> e.rms]
+          IN /\ IsInstant(x) /\ IsPattern(e.p) /\ OffOK(e.xoff) /\ OffOK(e.roff)
+             /\ IsInstant(Shift(x, e.xoff))
+             /\ e.text = Format(e.p, Shift(x, e.xoff))
+             /\ e.err = FALSE
+             /\ r.ms >= 0 /\ r.ms < MsPerDay
+             /\ ZoneRoundTripOK(e.p, x, e.xoff, r, e.roff)
+             /\ (IsInstant(Shift(r, e.roff)) => e.text2 = Format(e.p, Shift(r, e.roff)))
+             /\ (AllRequired(e.p, Shift(x, e.xoff)) => e.text2 = e.text)
+  /\ UNCHANGED vars
+
 \* one formatting call: the text is a function of the pattern and the instant alone
 FmtFields == {"p", "day", "ms", "text"}
 TraceFmt ==
@@ -117,7 +144,7 @@ TraceNow ==
 
 InvAll == UnitsNested /\ TextsNameInstant
 
-TraceNext == (TraceReset \/ TraceObs \/ TraceRT \/ TraceFmt \/ TracePrs \/ TraceNow) /\ InvAll'
+TraceNext == (TraceReset \/ TraceObs \/ TraceRT \/ TraceZRT \/ TraceFmt \/ TracePrs \/ TraceNow) /\ InvAll'
 
 TraceSpec == TraceInit /\ [][TraceNext]_tvars
 
